@@ -2,7 +2,7 @@
 (2) random netlists (py/designs.py style) wrapped in a Logic subclass with real in/out ports.
 (3) whole port-less HWSystems, input-only / output-only blocks and the accumulator loop in every port configuration.
 Everything is reproducible from a small JSON-able recipe:  ('lib', name, params) | ('rand', seed, params) |
-('top', seed, params) | ('loop', variant) | ('selfloop', variant)."""
+('top', seed, params) | ('loop', variant) | ('par', variant) | ('selfloop', variant)."""
 import random
 from common import quiet, quiet_import
 
@@ -118,6 +118,7 @@ def _populate(self, py4hw, ins, outs, rng, p):
         cnt[0] += 1
         return self.wire('t%d' % cnt[0], wd)
     recent = []
+    multi = []            # groups of 1-bit outputs that come from ONE child (Comparator gt/eq/lt)
     def pick():
         mode = rng.random()
         if mode < p.get('p_far', .25) and pool: return pool[rng.randrange(min(3, len(pool)))]      # long forward edges from the first wires
@@ -138,10 +139,11 @@ def _populate(self, py4hw, ins, outs, rng, p):
         recipe.append(('bit', lambda: py4hw.Bit(self, 'b%d' % n, a, i, r)))
         pool.append(r); return r
     kinds = p.get('kinds') or ['and2', 'or2', 'xor2', 'not', 'add', 'addco', 'sub', 'mul', 'mux2', 'range', 'concat', 'shl', 'const', 'sext',
-                               'neg', 'cmp', 'buf', 'andn', 'same2', 'abs', 'equal']
+                               'neg', 'cmp', 'buf', 'andn', 'same2', 'abs', 'equal', 'par']
     for k in range(p['n_blocks']):
         kind = rng.choice(kinds); n = 'u%d' % k
         if kind == 'same2' and p.get('distinct_pins'): kind = 'xor2'
+        if kind == 'par' and not multi: kind = 'cmp'
         a = pick(); b = pick(a)
         if kind in ('and2', 'or2', 'xor2'):
             r = new(rng.choice([a.getWidth(), b.getWidth()]))
@@ -151,6 +153,14 @@ def _populate(self, py4hw, ins, outs, rng, p):
             r = new(a.getWidth())
             cls = rng.choice([py4hw.And2, py4hw.Xor2, py4hw.Add])
             recipe.append((kind, lambda cls=cls, n=n, a=a, r=r: cls(self, n, a, a, r)))
+        elif kind == 'par':         # 2 or 3 DIFFERENT wires from one multi-output child into one gate that sits deep (far input from the newest logic)
+            grp = rng.choice(multi); xs = rng.sample(list(grp), rng.choice([2, 3]))
+            far = recent[-1] if recent else pick1(*grp)
+            if far.getWidth() != 1 or any(far is x for x in grp):
+                f1 = new(1); src = far if not any(far is x for x in grp) else pick(*grp); bn = cnt[0]
+                recipe.append(('bit', lambda src=src, f1=f1, bn=bn: py4hw.Bit(self, 'b%d' % bn, src, 0, f1))); far = f1
+            r = new(1); cls = rng.choice([py4hw.And, py4hw.Or]); xs = xs + [far]
+            recipe.append((kind, lambda cls=cls, n=n, xs=xs, r=r: cls(self, n, xs, r)))
         elif kind == 'andn':
             m = rng.randint(3, 5); xs = []
             for _ in range(m): xs.append(pick(*xs))
@@ -200,7 +210,7 @@ def _populate(self, py4hw, ins, outs, rng, p):
                 b = new(a.getWidth()); recipe.append(('const', lambda n=n, b=b: py4hw.Constant(self, n + 'k', 1, b)))
             gt, eq, lt = new(1), new(1), new(1)
             recipe.append((kind, lambda n=n, a=a, b=b, gt=gt, eq=eq, lt=lt: py4hw.Comparator(self, n, a, b, gt, eq, lt)))
-            pool.extend([gt, eq]); r = lt
+            pool.extend([gt, eq]); r = lt; multi.append((gt, eq, lt))
         pool.append(r); recent.append(r)
     for i, q in enumerate(regs):
         cands = [w for w in pool if w.getWidth() == q.getWidth() and (w is not q or p.get('self_loop'))]
@@ -247,7 +257,7 @@ def rand_params(rng, i):
         {'n_blocks': 10, 'n_in': 4, 'n_out': 3, 'n_regs': 1, 'unused_in': True},
         {'n_blocks': 5, 'n_in': 1, 'n_out': 1, 'n_regs': 3, 'kinds': ['not', 'buf', 'and2', 'mux2', 'add']},     # register-heavy feedback
         {'n_blocks': 12, 'n_in': 3, 'n_out': 2, 'n_regs': 2, 'p_far': .1, 'p_near': .8},         # very deep
-        {'n_blocks': 7, 'n_in': 2, 'n_out': 4, 'n_regs': 0, 'kinds': ['cmp', 'addco', 'andn', 'same2', 'const']},  # multi-output, wide fan-in, constants
+        {'n_blocks': 7, 'n_in': 2, 'n_out': 4, 'n_regs': 0, 'kinds': ['cmp', 'addco', 'andn', 'same2', 'const', 'par', 'not']},  # multi-output, wide fan-in, constants
         {'n_blocks': 4, 'n_in': 0, 'n_out': 1, 'n_regs': 1, 'kinds': ['const', 'not', 'add']},    # no in-ports at all
         {'n_blocks': 9, 'n_in': 5, 'n_out': 1, 'n_regs': 0, 'p_far': .7, 'p_near': .2, 'shuffle': False},
         {'n_blocks': 16, 'n_in': 3, 'n_out': 3, 'n_regs': 3},
@@ -349,6 +359,52 @@ def build_loop(variant):
 LOOPS = [(ports, order, extra) for ports in ('none', 'in', 'out', 'both') for order in ('add_first', 'reg_first') for extra in (0, 2)]
 
 
+def build_par(variant):
+    """PARALLEL long edges: k (2 or 3) DIFFERENT wires run from one multi-output child to ONE sink that sits `dist` grid
+    columns further right.  The sink is pushed right by its last input, which arrives through a chain of `dist` Bufs on
+    another path, so the k direct edges each need dist-1 pass-through markers.
+    variant = (src, k, dist): src 'cmp' Comparator gt/eq/lt | 'bits' BitsLSBF b0/b1/b2 | 'addco' Add r + co (into a Mux2:
+    co selects, r is a data input; k is 2) | 'leaf' a custom primitive with k 1-bit outputs."""
+    py4hw = quiet_import()
+    src, k, dist = variant
+
+    class Leaf(py4hw.Logic):
+        def __init__(self, parent, name, a, outs):
+            super().__init__(parent, name)
+            self.a = self.addIn('a', a); self.outs = [self.addOut('o%d' % i, o) for i, o in enumerate(outs)]
+        def propagate(self):
+            for i, o in enumerate(self.outs): o.put((self.a.get() >> i) & 1)
+
+    class Par(py4hw.Logic):
+        def __init__(self, parent, name, a, b, r):
+            super().__init__(parent, name)
+            self.addIn('a', a); self.addIn('b', b); self.addOut('r', r)
+            w = a.getWidth()
+            last = b
+            for i in range(dist):                       # the slow path: b -> Buf x dist (columns 1 .. dist)
+                nx = self.wire('c%d' % i, w); py4hw.Buf(self, 'buf%d' % i, last, nx); last = nx
+            if src == 'addco':
+                s, co = self.wire('s', w), self.wire('co')
+                py4hw.Add(self, 'src', a, b, s, co=co)                         # column 1, outputs r and co
+                py4hw.Mux2(self, 'sink', co, s, last, r)                       # column dist+1
+                return
+            far = self.wire('far'); py4hw.Bit(self, 'farbit', last, 0, far)     # column dist+1
+            outs = [self.wire(nm) for nm in (('gt', 'eq', 'lt') if src == 'cmp' else ['o%d' % i for i in range(w if src == 'bits' else 3)])]
+            if src == 'cmp': py4hw.Comparator(self, 'src', a, b, *outs)
+            elif src == 'bits': py4hw.BitsLSBF(self, 'src', a, outs)
+            else: Leaf(self, 'src', a, outs)
+            use = [outs[0], outs[2]] if k == 2 else outs[:3]          # (the 4th bit of BitsLSBF stays unread)
+            py4hw.Or(self, 'sink', use + [far], r)                              # column dist+2
+    with quiet():
+        hw = py4hw.HWSystem()
+        w = 4
+        obj = Par(hw, 'dut', hw.wire('a', w), hw.wire('b', w), hw.wire('r', w if src == 'addco' else 1))
+    return obj
+
+
+PARS = [(src, k, dist) for src in ('cmp', 'bits', 'leaf') for k in (2, 3) for dist in (1, 2, 3)] + [('addco', 2, d) for d in (2, 3, 4)]
+
+
 def build_selfloop(variant):
     """the smallest netlists with feedback through a register: a child whose output is wired straight to one of its
     own inputs.  variant: which pin ('e' enable, 'r' reset, 'd' data) and how many buffers sit between the in-port and
@@ -379,6 +435,7 @@ def build(recipe):
     if recipe[0] == 'lib': return build_lib(recipe[1], tuple(recipe[2]))
     if recipe[0] == 'selfloop': return build_selfloop(tuple(recipe[1]))
     if recipe[0] == 'loop': return build_loop(tuple(recipe[1]))
+    if recipe[0] == 'par': return build_par(tuple(recipe[1]))
     if recipe[0] == 'top': return build_top(recipe[1], recipe[2])
     if recipe[0] == 'rand': return build_rand(recipe[1], recipe[2])
     raise ValueError(recipe)
